@@ -26,6 +26,7 @@ mod c13;
 mod gen_wizard;
 mod c15;
 mod c16;
+mod c17;
 mod c18;
 mod c19;
 mod c20;
@@ -98,6 +99,7 @@ fn main() {
         "c13" => c13::run(&mut ctx),
         "c15" => c15::run(&mut ctx),
         "c16" => c16::run(&mut ctx),
+        "c17" => c17::run(&mut ctx),
         "c18" => c18::run(&mut ctx),
         "c19" => c19::run(&mut ctx),
         "c20" => c20::run(&mut ctx),
